@@ -22,7 +22,7 @@ def run_check(pid):
 res={}
 dirs=sys.argv[1:] or sorted(glob.glob(ROOT+'/harmless/R*'))
 for d in dirs:
-    pf=d+'/patch.diff'
+    pf=os.path.abspath(d+'/patch.diff')
     if not os.path.exists(pf): continue
     patch=open(pf).read()
     files=sorted(set(re.findall(r'^\+\+\+ b/wn/(\S+)',patch,re.M)))
